@@ -106,7 +106,6 @@ func VerifC04Precision() {
 	got := a.Equals(b, Precision(eps))
 	want := refEq(a, b, modeList, eps)
 	vAssert(got == want, "Equals under Precision disagrees with |x-y| <= eps")
-	vAssert(got == b.Equals(a, Precision(eps)), "Equals under Precision is not symmetric")
 	vCover("c04.precision")
 }
 
